@@ -123,7 +123,7 @@ def run(ctx):
             for kind in KINDS:
                 base_cases.append(case_for(kind, n, n, 1, enc))
                 for b, d in itertools.product(bs, devs):
-                    if enc == "offset" and q and b not in (1, n):
+                    if enc == "offset" and q and b not in (1, n, n + 1):
                         continue
                     if (b, d) == (n, 1):
                         continue
